@@ -409,6 +409,28 @@ SP_FILES = {
     'c/main.m': 'import "extra.m" item z',
 }
 SP_OPS = ['a/main.m', 'b/main.m', 'c/main.m']
+# scope providers registered as RREL strings / provider objects that serve several attributes: the provider
+# objects live as long as the metamodel, so whatever they keep between calls is history
+RR_GRAMMAR = """
+Model: items*=Item;
+Item: D | U | V | W;
+D: 'd' name=ID ('{' ds+=D '}')?;
+U: 'u' r=[D:FQN];
+V: 'v' s=[D:PATH];
+W: 'w' t=[D] ('in' scope=[D:FQN])?;
+FQN: ID ('.' ID)*;
+PATH[split='/']: ID ('/' ID)*;
+"""
+RR_FILES = {
+    'dot.m': 'd a { d b } u a.b',
+    'slash.m': 'd a { d b } v a/b',
+    'both.m': 'd a { d b { d c } } v a/b/c u a.b',
+    'simple.m': 'd a u a v a w a',
+    'dangling-dot.m': 'd a { d b } u a.x',
+    'dangling-slash.m': 'd a { d b } v a/x v a/b',
+    'plain.m': 'd a { d b } w a in a.b',
+}
+RR_OPS = list(RR_FILES)
 
 
 def file_outcome(mm, path):
@@ -422,7 +444,22 @@ def file_outcome(mm, path):
         return ('OSError', type(e).__name__, os.path.basename(str(e.filename)))
     except Exception as e:  # noqa
         return ('exception', type(e).__name__, str(e)[:140])
-    return ('ok', [(it.name, it.ref.name if it.ref is not None else None) for it in m.items])
+    def val(v):
+        if isinstance(v, list):
+            return [val(x) for x in v]
+        if hasattr(v, '_tx_position'):
+            chain = []
+            while hasattr(v, 'name'):
+                chain.insert(0, v.name)
+                v = getattr(v, 'parent', None)
+            return '/'.join(chain)
+        return v
+    return ('ok', [(type(it).__name__,) + tuple((a, val(getattr(it, a))) for a, ma in type(it)._tx_attrs.items()
+                                                if not ma.cont) for it in m.items])
+
+
+def _family(provider):
+    return {'search-path': (SP_FILES, SP_OPS), 'rrel-registered': (RR_FILES, RR_OPS)}.get(provider, (FFILES, FOPS))
 
 
 def file_history_side(provider, global_repo, hist):
@@ -432,6 +469,10 @@ def file_history_side(provider, global_repo, hist):
     tmp = tempfile.mkdtemp(prefix='c16f_')
 
     def mk():
+        if provider == 'rrel-registered':
+            mm = metamodel_from_str(RR_GRAMMAR, global_repository=global_repo)
+            mm.register_scope_providers({'*.*': 'items.ds*', 'W.t': 'items'})
+            return mm
         mm = metamodel_from_str(FGRAMMAR, global_repository=global_repo)
         if provider == 'search-path':
             mm.register_scope_providers({'*.*': P.FQNImportURI(search_path=[os.path.join(tmp, 'lib')])})
@@ -439,7 +480,7 @@ def file_history_side(provider, global_repo, hist):
             mm.register_scope_providers({'*.*': getattr(P, provider)()})
         return mm
     try:
-        for fn, text in (SP_FILES if provider == 'search-path' else FFILES).items():
+        for fn, text in _family(provider)[0].items():
             os.makedirs(os.path.dirname(os.path.join(tmp, fn)), exist_ok=True)
             with open(os.path.join(tmp, fn), 'w') as f:
                 f.write(text)
@@ -461,7 +502,7 @@ def file_histories(item):
     bad = []
     n = 0
     for k in range(1, length + 1):
-        for hist in itertools.product(SP_OPS if provider == 'search-path' else FOPS, repeat=k):
+        for hist in itertools.product(_family(provider)[1], repeat=k):
             n += 1
             r = file_history_side(provider, global_repo, list(hist))
             if r and len(bad) < 3:
@@ -529,6 +570,7 @@ def main():
         chk.harness_error('sympeg reports a history-dependent difference that the real textX does not show')
     # file histories (enumerated; no solver dimension)
     fitems = [(p_, gr, 2 if quick else 3) for p_ in ('FQNImportURI', 'PlainNameImportURI', 'search-path') for gr in (False, True)]
+    fitems.append(('rrel-registered', False, 2 if quick else 3))
     for it, (st, r, secs) in zip(fitems, pmap(file_histories, fitems)):
         if st != 'ok':
             chk.harness_error(r)
@@ -542,7 +584,8 @@ def main():
                 {'file_history': b['history'], 'provider': b['provider'], 'global_repo': b['global_repo']})
         chk.sample({'file_histories': r['histories'], 'provider': it[0], 'global_repository': it[1]})
     chk.cov['bounds']['file_histories'] = ('every sequence of <= %d loads out of %s (imports, valid and failing files), '
-                                           '2 providers, global repository on/off; no solver dimension' % (fitems[0][2], FOPS))
+                                           '2 providers, global repository on/off; the same over %s with RREL strings registered for several attributes '
+                                           '(two name delimiters); no solver dimension' % (fitems[0][2], FOPS, RR_OPS))
     chk.cov['paths_explored'] = hist
     chk.cov['distinct_nontrivial'] = nontrivial
     chk.cov['obligations'] = hist
